@@ -12,3 +12,26 @@ import wannierberri as wb
 e = wb.evaluate_k(s, k=(0.1, 0.2, 0.3), quantities=["energy"])
 assert e.shape == (2,)
 print("setup ok: wannierberri", wannierberri.__version__, "from", wannierberri.__file__)
+
+# determinism self-test: one recorded ray.wait schedule and one refinement history, each replayed twice,
+# must give byte-identical observations (otherwise the harness does not own all nondeterminism)
+import numpy as np
+from wbmc import sched
+from wbmc.props import c12, c10
+cfg = {"kind": "grid", "div": [3, 1, 1], "ncpu": 1, "niter": 1, "calc": "scripted"}
+obs = []
+for rep in range(2):
+    with engine.quiet():
+        o, log = c12.execute(cfg, 0, sched.Chooser([3, 1]), "quick")
+    obs.append((sorted((k, v.tobytes()) for k, v in o.items()), log["waits"], log["gets"]))
+assert obs[0] == obs[1], "C12 schedule replay is not deterministic"
+cfg10 = {"sys": "cubic", "div": [2, 2, 2], "mesh": 2, "fac": 1, "irred": True, "rank": 0, "depth": 1}
+snaps = []
+for rep in range(2):
+    with engine.quiet():
+        fail, firsts = c10.first_choices(cfg10, 0)
+        fail2, sn = c10.check_history(cfg10, 0, [firsts[1]])
+    assert fail is None and fail2 is None
+    snaps.append([(it, s, d.tobytes()) for it, s, d in sn])
+assert snaps[0] == snaps[1], "C10 history replay is not deterministic"
+print("determinism self-test ok")
